@@ -279,8 +279,21 @@ pub fn eval_c05_with(st: &State, verdicts: bool) -> Eval {
 /// Rebuild every cell clip by clip through the hook wrapper; whenever the floating point filter is
 /// undecided for a vertex, the vertex must be removed iff the exact determinant (O-int, on the
 /// integers the library itself maps the points to) is strictly negative.
+/// The exact predicate *as the clipping code uses it* (C10): every vertex decision of every clip of every cell of the
+/// state that the floating-point filter leaves open must be the decision of the integer oracle on the grid positions.
+pub fn eval_near_ties(st: &State) -> Eval {
+    let mut e = Eval::default();
+    near_tie_subcheck_for(&mut e, st, &st.id, "c10-ties");
+    e.nontrivial = e.transitions > 0;
+    e.sig = e.transitions;
+    e
+}
+
 fn near_tie_subcheck(e: &mut Eval, st: &State, case: &str) {
-    let check = "c05";
+    near_tie_subcheck_for(e, st, case, "c05")
+}
+
+fn near_tie_subcheck_for(e: &mut Eval, st: &State, case: &str, check: &str) {
     let gens: Vec<DVec3> = st.gens.clone();
     for i in 0..st.n() {
         let seq = match guarded(|| meshless_voronoi::verif::nn_sequence(&gens, i, st.norm_width(), st.dimensionality(), st.periodic)) {
